@@ -2,6 +2,7 @@
 import ast
 
 from ..engine import AnalysisError, norm_stmt, path_text
+from ..effects import self_attr
 from . import cache, common
 from .ra import RA
 
@@ -219,6 +220,22 @@ def run(eng, R):
                 # keyed by function and rejection point (not by the text of the write statement, which changes with the way arguments are passed)
                 R.ob("RA", "%s~>%s" % (f.qualname, desc.split(":")[0][:60]), False, eng.where(f, w.stmt),
                      "%s (as %s) writes %s and can afterwards still reject the call (%s) without undoing the write: %s" % (f.qualname, ctx.name, ws[:3], desc[:140], path_text(f, path)[:6]))
+    # ---- results injected from a file / by a MultiFit are dropped only after the forwarded call has accepted the request
+    R.rule("RA-fwd", "a fit mutator that forwards to its fitter (which rejects unknown parameter names / bad values) drops the loaded results only after that call returned", 6)
+    FORWARDED = {"set_fit_parameter_values", "set_all_fit_parameter_values", "fix_parameter", "release_parameter", "limit_parameter", "unlimit_parameter"}
+    fb = p.find_class("FitBase")
+    for f in sorted(fb.methods.values(), key=lambda m: m.name):
+        g = eng.cfg(f)
+        drops = [n for n in g.nodes if n.kind == "stmt" and isinstance(n.stmt, ast.Assign) and any(self_attr(t) == "_loaded_result_dict" for t in n.stmt.targets)
+                 and isinstance(n.stmt.value, ast.Constant) and n.stmt.value.value is None]
+        fwd = [n for n in g.nodes if any(isinstance(c, ast.Call) and isinstance(c.func, ast.Attribute) and c.func.attr in FORWARDED and self_attr(c.func.value) == "_fitter"
+                                         for part in n.ast_parts() for c in ast.walk(part))]
+        if not drops or not fwd:
+            continue
+        bad = [(a, b) for a in drops for b in fwd if g.find_path(a.id, lambda m, b=b: m.id == b.id, exceptional=False)]
+        R.ob("RA-fwd", f.qualname, not bad, eng.where(f, bad[0][0].stmt) if bad else eng.where(f),
+             "%s drops the results loaded from a file / injected by a MultiFit before it forwards to the fitter, which can still reject the call (unknown parameter name): after "
+             "the rejected call did_fit is False and uncertainties / covariance are gone although nothing was changed" % f.qualname)
     R.info["functions analysed for R-A"] = n_funcs
     for k, why in EXEMPT.items():
         R.note("R-A exemption %s: %s%s" % (k, why, "" if k in used_exempt else " (not matched on this tree)"))
